@@ -83,7 +83,8 @@ def run(res, args):
     for _ in range(40 * mult):
         f = gen.make_frame(gen.payload_with_type(rng, rng.choice([1005, 1006, 1230, 1033, gen.rand_type(rng)]), rng.choice([19, 21, 8, 40, 100])))
         g = bytearray(f)
-        i = rng.randint(5, len(f) - 4)
+        # ... or in the CRC bytes only (leader and payload identical to those of the good copy)
+        i = rng.randint(5, len(f) - 4) if rng.random() < 0.6 else rng.randint(len(f) - 3, len(f) - 1)
         g[i] ^= 1 << rng.randint(0, 7)
         streams.append((f + (gen.rand_junk(rng) if rng.random() < 0.3 else b"") + bytes(g) + f, "damaged-repeat"))
     cases = ["stream %d debug %s" % (framing.T0, gen.hx(s)) for s, _ in streams]
